@@ -412,6 +412,91 @@ Definition count_spec (s n : option Z) (rows : list row) : list row :=
 Definition return_distinct_query (rows : list row) : list row := rows_of (scan_chunks rows).
 Definition with_distinct_query (rows : list row) : list row := rows_of (drain_distinct (scan_chunks rows)).
 
+(** * [Planner::plan_filter] (planner.rs): a range predicate directly over a node scan is not
+      evaluated by the Filter operator but by [LpgStore::find_nodes_in_range] (store.rs), which
+      compares with [compare_values_for_range]: only values of the SAME type are comparable
+      (Int64 with Float64 is not), booleans are ordered, a NaN is incomparable.
+      (The zone-map short cut in front of it and the property-index path are not modelled: the
+      run creates no index; the zone-map check is consulted only as listed under finding K6.) *)
+Definition cmp_z (a b : Z) : Z := if a <? b then -1 else if b <? a then 1 else 0.
+Definition range_cmp (a b : value) : option Z :=
+  match a, b with
+  | VInt x, VInt y => Some (cmp_z x y)
+  | VFloat x, VFloat y => match f_key x, f_key y with Some p, Some q => Some (cmp_z p q) | _, _ => None end
+  | VStr x, VStr y => Some (bytes_cmp x y)
+  | VBool x, VBool y => Some (cmp_z (if x then 1 else 0) (if y then 1 else 0))
+  | _, _ => None
+  end.
+Definition value_in_range (v : value) (mn mx : option value) (mni mxi : bool) : bool :=
+  match mn with
+  | None => true
+  | Some m => match range_cmp v m with
+              | Some c => negb ((c <? 0) || ((c =? 0) && negb mni))
+              | None => false
+              end
+  end
+  &&
+  match mx with
+  | None => true
+  | Some m => match range_cmp v m with
+              | Some c => negb ((0 <? c) || ((c =? 0) && negb mxi))
+              | None => false
+              end
+  end.
+(** [extract_range_predicate]: property op literal, or literal op property (operator flipped) *)
+Definition range_atom (p : expr) : option (nat * binop * value) :=
+  match p with
+  | EBin op (EVar i) (ELit v) =>
+      match op with Lt | Le | Gt | Ge => Some (i, op, v) | _ => None end
+  | EBin op (ELit v) (EVar i) =>
+      match op with
+      | Lt => Some (i, Gt, v) | Le => Some (i, Ge, v) | Gt => Some (i, Lt, v) | Ge => Some (i, Le, v)
+      | _ => None
+      end
+  | _ => None
+  end.
+(** [try_plan_filter_with_range_index]: BETWEEN pattern first, then a single comparison;
+    result = (property, min, max, min inclusive, max inclusive) *)
+Definition range_pred (p : expr) : option (nat * option value * option value * bool * bool) :=
+  match p with
+  | EBin And l r =>
+      match range_atom l, range_atom r with
+      | Some (i, o1, v1), Some (j, o2, v2) =>
+          if Nat.eqb i j then
+            match o1, o2 with
+            | Ge, Le => Some (i, Some v1, Some v2, true, true)
+            | Ge, Lt => Some (i, Some v1, Some v2, true, false)
+            | Gt, Le => Some (i, Some v1, Some v2, false, true)
+            | Gt, Lt => Some (i, Some v1, Some v2, false, false)
+            | Le, Ge => Some (i, Some v2, Some v1, true, true)
+            | Lt, Ge => Some (i, Some v2, Some v1, true, false)
+            | Le, Gt => Some (i, Some v2, Some v1, false, true)
+            | Lt, Gt => Some (i, Some v2, Some v1, false, false)
+            | _, _ => None
+            end
+          else None
+      | _, _ => None
+      end
+  | _ =>
+      match range_atom p with
+      | Some (i, Lt, v) => Some (i, None, Some v, false, false)
+      | Some (i, Le, v) => Some (i, None, Some v, false, true)
+      | Some (i, Gt, v) => Some (i, Some v, None, false, false)
+      | Some (i, Ge, v) => Some (i, Some v, None, true, false)
+      | _ => None
+      end
+  end.
+(** [MATCH (n:L) WHERE p]: the chunks that reach the operators above *)
+Definition where_chunks (fa : binop -> Z -> Z -> Z) (tab : list env) (p : expr) (rows : list row) : list chunk :=
+  match range_pred p with
+  | Some (i, mn, mx, a, b) =>
+      scan_chunks (filter (fun r => match nth_error (tab_env tab r) i with
+                                    | Some (Some v) => value_in_range v mn mx a b
+                                    | _ => false
+                                    end) rows)
+  | None => drain_filter fa (tab_env tab) p (scan_chunks rows)
+  end.
+
 (** witnesses / fixtures used by theorems and by the run *)
 Definition cmp_col0 (op : binop) (z : Z) : expr := EBin op (EVar 0) (ELit (VInt z)).
 Definition int_rows (n : nat) : list row := map (fun i => [VInt (Z.of_nat i)]) (seq 0 n).
